@@ -704,7 +704,17 @@ class RfSession:
         self.send_data(payload)
         # (the victim's sink echoes everything it was given, in order: what it still owes for earlier hostile
         # frames that carried VALID data - held back for lack of credits - legitimately precedes this echo)
-        got = await self.atk.until(lambda: bytes(self.rx) if payload in bytes(self.rx) else None)
+        got = None
+        for _round in range(40):
+            got = await self.atk.until(lambda: bytes(self.rx) if payload in bytes(self.rx) else None)
+            if got is not None:
+                break
+            before = len(self.rx)
+            # the backlog the victim owes may need more credits than one frame grants
+            self.tx(rf.rfcomm_frame(rf.UIH, 1, self.dlci, 1, b'', credits=30))
+            await self.atk.rg.quiesce(extra_turns=8)
+            if len(self.rx) == before and _round >= 2:
+                break       # more credits bring nothing more: really silent
         if got is None:
             return f'no echo on the DLC (received {bytes(self.rx)[-80:].hex()} after {len(self.rx)} octets)'
         if not got.endswith(payload):
